@@ -100,16 +100,19 @@ pub fn skip_reason(flags: &LookupFlags, gdef: Option<&GdefModel>, gid: u16) -> O
             if flags.ignore_marks {
                 return Some("ignoreMarks");
             }
-            if flags.mark_attach_type != 0 {
-                let mac = gdef.map(|g| g.mark_attach_class(gid)).unwrap_or(0);
-                if mac != flags.mark_attach_type as u16 {
-                    return Some("markAttachmentType");
-                }
-            }
+            // OpenType, chapter 2, lookupFlag: "If a mark filtering set is specified, this supersedes any
+            // mark attachment type indication in the lookup flag."
             if let Some(set) = flags.mark_filtering_set {
                 let inset = gdef.map(|g| g.in_mark_set(set, gid)).unwrap_or(false);
                 if !inset {
                     return Some("markFilteringSet");
+                }
+                return None;
+            }
+            if flags.mark_attach_type != 0 {
+                let mac = gdef.map(|g| g.mark_attach_class(gid)).unwrap_or(0);
+                if mac != flags.mark_attach_type as u16 {
+                    return Some("markAttachmentType");
                 }
             }
             None
